@@ -73,7 +73,26 @@ def legal_vectors(draw, nmax=(12, 8, 6), types=None, numinst_max=3, two_sided=No
     return v
 
 
+GEN_LONG = {'numinst': '--numberinstances', 'o': '--outputdirectory', 'mp': '--matchingproblem',
+            'twopl': '--preferencelists2', 'skew': '--linearskew', 'n1': '--numberofagents1',
+            'n2': '--numberofagents2', 'n3': '--numberofagents3', 'pmin': '--minpreflistlength',
+            'pmax': '--maxpreflistlength', 't1': '--ties1', 't2': '--ties2',
+            'lq': '--lowerquotas', 'uq': '--upperquotas', 'llq': '--lecturerlowerquotas',
+            'luq': '--lecturerupperquotas', 'lt': '--lecturertargets'}
+
+
 def build_argv(v, outdir):
+    argv = _build_argv(v, outdir)
+    if v.get('seed', 0) % 4 == 3:
+        # the documented long spellings, for a quarter of the cases (derived from the seed so
+        # that perturbed copies of a vector keep the spelling)
+        short = {'-' + k: l for k, l in GEN_LONG.items()}
+        argv = [short.get(t, t) if (i == 0 or not argv[i - 1] in ('-o', '--outputdirectory'))
+                else t for i, t in enumerate(argv)]
+    return argv
+
+
+def _build_argv(v, outdir):
     argv = []
     for k in ORDER:
         if k == 'o':
